@@ -262,7 +262,9 @@ class UdpServerThread(Thread):
 
                     while self.ctxt._active and not self.queue:
                         # go to sleep if there are no connections
-                        if not self.ctxt.connections:
+                        # (connections which have not completed the handshake
+                        # still need to be timed out)
+                        if not self.ctxt.connections and not self.ctxt.temp_connections:
                             self.cv_queue.wait()
 
                             previous_update_time = time.monotonic()
